@@ -143,11 +143,18 @@ def traverse(obj, path):
 
 
 def set_leaf(obj, path, value):
-    parent = traverse(obj, path[:-1])
-    if isinstance(path[-1], int):
-        parent[path[-1]] = value
-    else:
-        setattr(parent, path[-1], value)
+    """obj.<path> = value.  An element of a dimensioned member is replaced by assigning a new (nested) list to the
+    attribute that holds it: the list read through a flipped interface may be a copy."""
+    k = max(i for i, e in enumerate(path) if isinstance(e, str))
+    owner = traverse(obj, path[:k])
+    idx = path[k + 1:]
+    if not idx:
+        setattr(owner, path[k], value)
+        return
+
+    def replaced(cur, idx):
+        return [replaced(e, idx[1:]) if i == idx[0] else e for i, e in enumerate(cur)] if idx else value
+    setattr(owner, path[k], replaced(getattr(owner, path[k]), idx))
 
 
 def edit_tree(ms, mp, kind, attrs):
@@ -901,9 +908,15 @@ def plans_for(th):
                   {"coverage": True, "metadata_every": 1, "workers": 4}))
         # named signatures (subclass instances compared by identity / with a structural __eq__) at the top level
         # and as members, the same object reused plain and flipped; wrongly oriented sub-interfaces
-        P.append(("named", cfg(3, 2, 3, "DimsTwo", "DimsTwo", "AttrsOne", "FlipsBoth", swaps=True, rootnm="NmAll",
+        P.append(("named", cfg(2, 2, 3, "DimsNone", "DimsTwo", "AttrsOne", "FlipsBoth", swaps=True, rootnm="NmAll",
                                subnm="NmAll"),
                   {"metadata_every": 32, "workers": 8}))
+        P.append(("named-deep", cfg(3, 2, 3, "DimsNone", "DimsTwo", "AttrsOne", "FlipsNo", swaps=True, rootnm="NmAll",
+                                    subnm="NmNamed"),
+                  {"metadata_every": 32, "workers": 8}))
+        P.append(("named-deep2", cfg(3, 2, 2, "DimsNone", "DimsTwo", "AttrsOne", "FlipsBoth", swaps=True, rootnm="NmAll",
+                                     subnm="NmAll"),
+                  {"metadata_every": 32, "workers": 4}))
         P.append(("named-corrupt", cfg(2, 2, 2, "DimsTwo", "DimsTwo", "AttrsOne", "FlipsBoth", variants=True, quiet=True,
                                        swaps=True, rootnm="NmNamed", subnm="NmNamed"),
                   {"metadata_every": 4, "workers": 4}))
